@@ -92,9 +92,9 @@ func paramsFor(prop, tier string) params {
 
 func cases(prop, tier string) int {
 	n := map[string][2]int{
-		"C01": {900, 8000}, "C02": {2400, 20000}, "C03": {2400, 20000}, "C04": {900, 8000},
-		"C05": {450, 3000}, "C06": {700, 6000}, "C08": {500, 6000}, "C10": {900, 8000},
-		"C07": {1200, 12000}, "C09": {900, 8000},
+		"C01": {1500, 8000}, "C02": {8000, 40000}, "C03": {8000, 40000}, "C04": {1500, 8000},
+		"C05": {700, 3000}, "C06": {1000, 6000}, "C08": {900, 6000}, "C10": {1500, 8000},
+		"C07": {6000, 30000}, "C09": {1200, 8000},
 	}[prop]
 	if tier == "thorough" {
 		return n[1]
